@@ -433,7 +433,8 @@ def ref_item(b, s, e):
     ls_last = b.rfind(b"\n", 0, e - 1) + 1
     first = b.count(b"\n", 0, s) + 1
     last = b.count(b"\n", 0, e - 1) + 1
-    lines = b[ls:le].decode().split("\n")
+    # `str::lines` strips a carriage return that precedes the line break (every line shown here is followed by one)
+    lines = [l[:-1] if l.endswith("\r") else l for l in b[ls:le].decode().split("\n")]
 
     def col(seg):
         return sum(4 if c == 9 else 1 for c in seg)
@@ -627,7 +628,8 @@ class C15(ListBase):
 
 class C16(ListBase):
     id = "C16"
-    rule = ("one case = list and list_all in both formats on one document of the C15 domain, plus documents whose first byte is a line break; "
+    rule = ("one case = list and list_all in both formats on one document of the C15 domain, plus documents whose first byte is a line break, "
+            "plus the same documents with CRLF line ends; "
             "reference rendering written independently in Python (start marker column, `{n:7} |` lines with tabs expanded, end marker under "
             "the last removed column, byte-based columns); the JSON must parse to objects {line_range, annotated_code_block, current_status} "
             "and each block must equal the pretty block with colour codes stripped; non-trivial = at least one item; a file starting with a "
@@ -637,13 +639,17 @@ class C16(ListBase):
         yield from self.docs(rng, tier, quick(tier, 3000, 120000))
         yield from self.docs(rng, tier, quick(tier, 600, 20000), leading_nl=True)
         yield from self.multi_inline(rng, quick(tier, 500, 20000))
+        # the same documents with CRLF line ends
+        for c in self.docs(rng, tier, quick(tier, 600, 20000)):
+            m = c.meta
+            yield self.mk(m["src"].replace("\n", "\r\n"), m["ds"], m["de"], Cfg.from_json(m["cfg"]), "ast-crlf")
 
     def oracle(self, case, impl, spec):
         o, err = self.unpack(impl)
         if o is None:
             return {"fail": "panic", "detail": err, "nontrivial": True, "tags": ["panic"]}
         b = case.meta["src"].encode()
-        tags = ["leading-newline" if b[:1] == b"\n" else "domain"]
+        tags = ["leading-newline" if b[:1] == b"\n" else "crlf" if b"\r\n" in b else "domain"]
         nt = False
         for (jtxt, ptxt, mk, name) in ((o["list_json"], o["list_pretty"], [m + ("R",) for m in o["markers"]], "list"),
                                        (o["all_json"], o["all_pretty"], o["all"], "list_all")):
